@@ -12,6 +12,7 @@ import RSVerif.Proofs.WalshSpec
 import RSVerif.Proofs.TableSpec
 import RSVerif.Proofs.LocatorSpec
 import RSVerif.Proofs.TableInitSpec
+import RSVerif.Proofs.SrcTablesFinal
 
 namespace RS
 open ShardAlg
@@ -125,5 +126,42 @@ theorem table_construction_correct :
         = (lut16 (fun y => gmul (gexp logm) y) k i).toNat) :=
   ⟨initExpLog_exp, initExpLog_log_eq, initSkew_initExpLog, initLogWalsh_initExpLog,
    fun logm k i h1 h2 h3 => initMul16Entry_initExpLog logm k i h1 h2 h3⟩
+
+open RS.SrcU in
+/-- the table INITIALISERS and the integer primitives AS TRANSLATED FROM TODAY'S SOURCE (`Gen/SrcUtils.lean`,
+    regenerated by `/verif/translate/rs2lean_utils.py` on every run from src/engine/tables.rs, utils.rs, fwht.rs and
+    the constants of src/engine.rs — `initialize_exp_log`, `initialize_log_walsh`, `initialize_skew`,
+    `tables::mul`, `add_mod`, `sub_mod`, the sequential in-place `fwht`, `eval_poly`; every loop, shift, xor, index,
+    checked `usize` / `u16` / `u32` operation): they never panic and compute exactly the transliterations of
+    Model/TableInit.lean and the Walsh model — hence, by `table_construction_correct` and `tables_spec`, the
+    tables of the definitions: `exp[k] = g^k`, `log` its inverse, `skew[i] = log (skewElem i)`, `LOG_WALSH` -/
+theorem source_tables_and_integer_code :
+    CANTOR_BASIS = (cantorBasis.map (·.toNat)).toArray ∧
+    U_initialize_exp_log = some initExpLog ∧
+    U_initialize_log_walsh initExpLog.2 = some logWalshArr ∧
+    U_initialize_skew initExpLog.1 initExpLog.2 = some (initSkew initExpLog.1 initExpLog.2) ∧
+    (∀ i, i < 65535 → (initSkew initExpLog.1 initExpLog.2).getD i 0 = skewLog i) ∧
+    (∀ x logm, x < 65536 → logm < 65536 →
+      U_mul x logm initExpLog.1 initExpLog.2 = some (tmul initExpLog.1 initExpLog.2 x logm)) ∧
+    (∀ x y, x < 65536 → y < 65536 → U_add_mod x y = some (addMod x y) ∧ U_sub_mod x y = some (subMod x y)) ∧
+    (∀ (data : Array Nat) (m : Nat), data.size = 65536 → (∀ i, data.getD i 0 < 65536) → m ≤ 65536 →
+      U_fwht data m = some (fwht data m)) ∧
+    (∀ (er : Array Nat) (t : Nat), er.size = 65536 → (∀ i, er.getD i 0 < 65536) → t ≤ 65536 →
+      U_eval_poly logWalshArr er t = some (evalPolyWith logWalshArr er t)) := by
+  have hu := initExpLog_u16
+  have hlw := logWalshArr_u16
+  refine ⟨src_cantor_basis, src_initialize_exp_log, ?_, ?_, fun i hi => initSkew_initExpLog i hi, ?_, ?_, ?_, ?_⟩
+  · have h := src_initialize_log_walsh_of initExpLog.2 initExpLog_log_size hu.2
+      (fun d hs hd => src_fwht d hs hd 65536 (Nat.le_refl _))
+    rwa [initLogWalsh_initExpLog] at h
+  · exact src_initialize_skew _ _ initExpLog_exp_size initExpLog_log_size hu.1 hu.2
+  · intro x logm hx hm
+    exact src_mul _ _ initExpLog_exp_size initExpLog_log_size hu.2 x logm hx hm
+  · intro x y hx hy
+    exact ⟨src_add_mod x y hx hy, src_sub_mod x y hx hy⟩
+  · intro data m hs hd hm
+    exact src_fwht data hs hd m hm
+  · intro er t hs hd ht
+    exact src_eval_poly logWalshArr er hlw.1 hs hlw.2 hd t ht
 
 end RS
